@@ -672,8 +672,10 @@ def unify(expected, actual, local_names, binds=None):
         if expected.id == actual.id and expected.id not in binds and \
                 actual.id not in binds.values():
             return binds
-        if actual.id in local_names and expected.id not in getattr(
-                local_names, "fixed", ()):
+        # an expected name may stand for another local only if the
+        # function has no local of that name any more (it was renamed)
+        if actual.id in local_names and expected.id not in local_names \
+                and expected.id not in getattr(local_names, "fixed", ()):
             if expected.id in binds:
                 return binds if binds[expected.id] == actual.id else None
             if actual.id in binds.values():
@@ -764,8 +766,52 @@ class StmtText(str):
                 return mode, tree
         return None, None
 
+    def _header(self, text):
+        """'for x in y:' / 'if c:' / 'while c:' / 'with a as b:' /
+        'except E as e:' -- a compound statement's header alone"""
+        t = text.strip()
+        if not t.endswith(":"):
+            return False
+        try:
+            if t.startswith("except"):
+                want = ast.parse("try: pass\n" + t + " pass").body[0] \
+                    .handlers[0]
+            elif t.startswith("elif "):
+                want = ast.parse(t[2:] + " pass").body[0]
+            else:
+                want = ast.parse(t + " pass").body[0]
+        except SyntaxError:
+            return False
+        fields = {ast.For: ("target", "iter"), ast.If: ("test",),
+                  ast.While: ("test",), ast.With: ("items",),
+                  ast.ExceptHandler: ("type",)}.get(type(want))
+        if fields is None:
+            return False
+        for top in self.stmts:
+            for s in ast.walk(top):
+                if type(s) is not type(want):
+                    continue
+                binds = {}
+                ok = True
+                for f in fields:
+                    a, b = getattr(want, f), getattr(s, f)
+                    if isinstance(a, list):
+                        if len(a) != len(b) or any(
+                                unify(x, y, self.locals, binds) is None
+                                for x, y in zip(a, b)):
+                            ok = False
+                    elif a is None or b is None:
+                        ok = ok and a is b
+                    elif unify(a, b, self.locals, binds) is None:
+                        ok = False
+                if ok:
+                    return True
+        return False
+
     def __contains__(self, text):
         if str.__contains__(self, text):
+            return True
+        if self._header(text):
             return True
         mode, tree = self._parse(text)
         if tree is None:
